@@ -182,6 +182,19 @@ __attribute__((noinline)) unsigned w_sess(const unsigned char* in, unsigned char
         try { ret = inst.eval(argv.size(), argv.data()) ? 1 : 0; } catch (const std::exception&) { threw = 1; }
         inst.env = nullptr;
         w.u32(ret); w.u32(threw); dump(w, env, err);
+    } else if (mode == 8) {
+        // exec <tokens> followed by one ordinary step (does exec leave anything behind that a later step trips over?)
+        uint32_t ntok = r.u32();
+        std::vector<valtype> toks; std::vector<char*> argv;
+        for (uint32_t i = 0; i < ntok; i++) { toks.push_back(r.bytes()); toks.back().push_back(0); }
+        for (auto& t : toks) argv.push_back((char*)t.data());
+        Instance inst;
+        inst.env = &env;
+        uint32_t r1 = 0, r2 = 0;
+        try { r1 = inst.eval(argv.size(), argv.data()) ? 1 : 0; } catch (const std::exception&) { threw = 1; }
+        r2 = inst.step(1) ? 1 : 0;
+        inst.env = nullptr;
+        w.u32(r1 | (r2 << 1)); w.u32(threw); dump(w, env, err);
     }
     return (unsigned)(w.p - out);
 }
